@@ -7,6 +7,7 @@ mod c11;
 mod c06;
 mod fsfam;
 mod c08;
+mod c17;
 
 use std::io::{BufWriter, Write};
 
@@ -28,6 +29,7 @@ fn main() {
                 "C11" => c11::gen(tier, seed, &mut out),
                 "C06" => c06::gen(tier, seed, &mut out),
                 "C08" => c08::gen(tier, seed, &mut out),
+                "C17" => c17::gen(tier, seed, &mut out),
                 _ => {
                     eprintln!("unknown property {}", prop);
                     std::process::exit(2);
@@ -73,6 +75,13 @@ fn replay_one(toks: &[&str]) -> String {
             let scratch = common::scratch_root().join("c08r");
             std::fs::create_dir_all(&scratch).unwrap();
             let r = c08::observe(&toks[1..], &scratch);
+            common::rm_rf(&scratch);
+            r
+        }
+        "C17" => {
+            let scratch = common::scratch_root().join("c17r");
+            std::fs::create_dir_all(&scratch).unwrap();
+            let r = c17::observe(&toks[1..], &scratch);
             common::rm_rf(&scratch);
             r
         }
